@@ -364,11 +364,7 @@ func crashSignature(stderr string) string {
 	frame := ""
 	for i, l := range lines {
 		if strings.HasPrefix(l, "github.com/orda-io/orda/") && i > 0 {
-			f := l
-			if j := strings.Index(f, "("); j > 0 {
-				f = f[:j]
-			}
-			frame = f
+			frame = funcName(l)
 			break
 		}
 	}
@@ -377,6 +373,16 @@ func crashSignature(stderr string) string {
 		head = head[:120]
 	}
 	return "crash:" + head + "@" + frame
+}
+
+// funcName strips the argument list from a goroutine-dump frame line.
+func funcName(l string) string {
+	for j := 0; j < len(l); j++ {
+		if l[j] == '(' && !(j+1 < len(l) && l[j+1] == '*') {
+			return l[:j]
+		}
+	}
+	return l
 }
 
 func stripNumbers(s string) string {
@@ -425,6 +431,13 @@ func DriverMain(propID, tier string, seed uint64, only []int) int {
 		workers = 1
 	}
 	agg := &Agg{Prop: p, Tier: tier, Seed: seed, FPs: map[string]bool{}, Counters: map[string]int64{}, Notes: map[string]interface{}{}}
+	if only == nil {
+		if old, _ := filepath.Glob(filepath.Join(VerifDir, "replays", propID+"-*.json")); old != nil {
+			for _, f := range old {
+				os.Remove(f)
+			}
+		}
+	}
 	workDir := filepath.Join(VerifDir, "work", propID)
 	os.RemoveAll(workDir)
 	os.MkdirAll(workDir, 0o755)
@@ -709,6 +722,12 @@ func finish(a *Agg, start time.Time, partial bool) int {
 	samples := a.Samples
 	if len(samples) == 0 {
 		samples = []interface{}{"no non-trivial sample recorded"}
+	}
+	if p.Trusted == nil {
+		p.Trusted = []string{"harness log-order mini-server and monitors (/verif/harness)", "Go runtime"}
+	}
+	if p.Assumptions == nil {
+		p.Assumptions = []string{}
 	}
 	cov := map[string]interface{}{
 		"evaluations":         a.Evaluations,
